@@ -27,6 +27,12 @@ const PASSWORD: &str = "filter-pass";
 /// verifiable attribute whose MAC / CRC is wrong, or None.
 fn build_filter_msg(kinds: &[&str], bad: Option<usize>, id: &[u8; 12]) -> Vec<u8> {
     let key = obs::st_key(PASSWORD);
+    // dimensions the kind sequence does not fix, varied by the case (so that replays agree): the
+    // message class, which ordinary attribute stands at a position (SOFTWARE, or an XOR-MAPPED-ADDRESS
+    // whose decoding needs the transaction id), and whether ordinary values are long (> 255 bytes behind
+    // an integrity attribute)
+    let salt = kinds.len() + bad.map_or(0, |b| b + 1);
+    let long_values = salt % 3 == 2;
     let items: Vec<Item> = kinds
         .iter()
         .enumerate()
@@ -42,11 +48,23 @@ fn build_filter_msg(kinds: &[&str], bad: Option<usize>, id: &[u8; 12]) -> Vec<u8
                     0x7F00 + i as u16,
                     (0..(i % 6)).map(|j| (0xA0 + i + j) as u8).collect(),
                 ),
-                _ => Item::Raw(obs::T_SOFTWARE, format!("o{}", i).into_bytes()),
+                _ if (i + salt) % 2 == 1 => {
+                    // XOR-MAPPED-ADDRESS, IPv6 [2001:db8::i]:3478+i (XOR with cookie and transaction id)
+                    let port = (3478u16 + i as u16) ^ 0x2112;
+                    let mut addr = [0u8; 16];
+                    addr[0] = 0x20; addr[1] = 0x01; addr[2] = 0x0d; addr[3] = 0xb8; addr[15] = i as u8;
+                    let mut mask = obs::COOKIE.to_vec();
+                    mask.extend_from_slice(id);
+                    let mut v = vec![0u8, 2];
+                    v.extend_from_slice(&port.to_be_bytes());
+                    v.extend(addr.iter().zip(mask.iter()).map(|(a, m)| a ^ m));
+                    Item::Raw(obs::T_XOR_MAPPED, v)
+                }
+                _ => Item::Raw(obs::T_SOFTWARE, if long_values { format!("o{}{}", i, "-".repeat(300)) } else { format!("o{}", i) }.into_bytes()),
             }
         })
         .collect();
-    obs::build(1, obs::CLASS_SUCCESS, id, &items)
+    obs::build(1, [obs::CLASS_SUCCESS, obs::CLASS_INDICATION, 0, obs::CLASS_ERROR][salt % 4], id, &items)
 }
 
 fn filter_record(kinds: &[&str], bad: Option<usize>, rng: &mut StdRng) -> Value {
@@ -520,6 +538,7 @@ fn lib_key(kind: u8, user: &str, realm: &str, password: &str) -> HMACKey {
 // strings that are not in Unicode normalization form C (OpaqueString enforcement composes them)
 const RT_REALM_QUOTED: &str = "\"rt.example.org\"";
 const RT_REALM_NFD: &str = "re\u{301}alm.example";
+const RT_PASSWORD_LONG: &str = "0123456789abcdefghijklmnopqrstuvwxyzABCDEFGHIJKLMNOPQRSTUVWXYZ-0123456789abcdefghijklmnopqrstuvwxyz";
 const RT_PASSWORD_NFD: &str = "se\u{301}same\u{212B}pa\u{308}ss";
 
 fn rt_keys() -> Vec<RtKey> {
@@ -535,6 +554,8 @@ fn rt_keys() -> Vec<RtKey> {
         mk("lt-md5-quoted-realm", 1, RT_REALM_QUOTED, RT_PASSWORD),
         mk("lt-sha256-nfd", 2, RT_REALM_NFD, RT_PASSWORD_NFD),
         mk("st-nfd", 0, "", RT_PASSWORD_NFD),
+        // longer than the block size of SHA-1 / SHA-256 (HMAC then hashes the key itself)
+        mk("st-long", 0, "", RT_PASSWORD_LONG),
     ]
 }
 
@@ -587,8 +608,12 @@ fn rt_record(method: u16, class: u8, txid: [u8; 12], attrs: &[(String, Value)], 
                          "validates":false});
     let built = catch_unwind(AssertUnwindSafe(|| {
         let mut b = stun_rs::StunMessageBuilder::new(
-            stun_rs::MessageMethod::try_from(method).unwrap(), class_of(class))
-            .with_transaction_id(stun_rs::TransactionId::from(txid));
+            stun_rs::MessageMethod::try_from(method).unwrap(), class_of(class));
+        if txid[0] % 2 == 1 {
+            // a builder that already carries another id (a template): the last call counts
+            b = b.with_transaction_id(stun_rs::TransactionId::from([0x5A; 12]));
+        }
+        b = b.with_transaction_id(stun_rs::TransactionId::from(txid));
         for (k, v) in attrs {
             b = b.with_attribute(zoo::construct(k, v).map_err(|e| format!("{}: {}", k, e))?);
         }
@@ -974,6 +999,18 @@ fn accepted(bytes: &[u8], t: u16, key: &HMACKey) -> (bool, bool) {
         Ok(Err(_)) => false,
         Ok(Ok((m, _))) => has(&m),
     };
+    // the same validating decoder obtained differently: validation switched on first, the builder
+    // keyed with another key before the right one (the last key counts)
+    let ctx2 = stun_rs::DecoderContextBuilder::default().with_validation()
+        .with_key(HMACKey::new_short_term("a-key-set-earlier").expect("key")).with_key(key.clone()).build();
+    let vdec2 = stun_rs::MessageDecoderBuilder::default().with_context(ctx2).build();
+    let via_decoder2 = match catch_unwind(AssertUnwindSafe(|| vdec2.decode(bytes))) {
+        Err(_) => { panicked = true; false }
+        Ok(Err(_)) => false,
+        Ok(Ok((m, _))) => has(&m),
+    };
+    ALL_ROUTES.with(|c| c.set(via_decoder && via_decoder2));
+    via_decoder |= via_decoder2;
     if t == obs::T_FP {
         // FINGERPRINT needs no key: a validating decoder without one must reject as well
         let ctx = stun_rs::DecoderContextBuilder::default().with_validation().build();
@@ -1008,7 +1045,14 @@ fn accepted(bytes: &[u8], t: u16, key: &HMACKey) -> (bool, bool) {
         Err(_) => { panicked = true; false }
         Ok(v) => v,
     };
+    ALL_ROUTES.with(|c| c.set(c.get() && via_validate));
     (via_decoder || via_validate, panicked)
+}
+
+thread_local! {
+    /// whether EVERY route of the latest `accepted` call accepted (the encoder's own output must be
+    /// accepted by all of them; a faulted message by none)
+    static ALL_ROUTES: std::cell::Cell<bool> = const { std::cell::Cell::new(false) };
 }
 
 fn cmd_faults(args: &[String]) {
@@ -1067,7 +1111,8 @@ fn cmd_faults(args: &[String]) {
             vec![("fp", obs::T_FP)]
         };
         for (tname, t) in targets {
-            let (base_ok, _) = accepted(&bytes, t, &key.lib);
+            let (any_ok, _) = accepted(&bytes, t, &key.lib);
+            let base_ok = any_ok && ALL_ROUTES.with(|c| c.get());
             // wrong keys differing in one character
             let wrong: Vec<bool> = if what == "integrity" {
                 let pw = key.password;
